@@ -54,6 +54,7 @@ func c17Files() [][]rdbgen.Item {
 			vals = append(vals, v)
 		}
 	}
+	forms := append(rdbcat.LZFFamily(), rdbgen.IntStr(-5, 8), rdbgen.IntStr(-300, 16), rdbgen.IntStr(70000, 32))
 	var files [][]rdbgen.Item
 	var cur []rdbgen.Item
 	for i, v := range vals {
@@ -82,12 +83,22 @@ func c17Files() [][]rdbgen.Item {
 		case 5:
 			opts.HasIdle, opts.Idle = true, uint64(1000+i)
 		}
-		cur = append(cur, rdbgen.Key(rdbgen.RawStr(name, rdbgen.LCanon), v, opts))
+		ks := rdbgen.RawStr(name, rdbgen.LCanon)
+		if i%4 == 3 {
+			// key names in the other string encodings (LZF with every back-reference relation, integers)
+			ks = forms[(i/4)%len(forms)]
+		}
+		cur = append(cur, rdbgen.Key(ks, v, opts))
 		if i%5 == 4 {
 			cur = append(cur, rdbgen.SelectDB(uint32(i%7), rdbgen.LCanon))
 		}
 		if i%9 == 8 {
-			cur = append(cur, rdbgen.Aux(rdbgen.RawStr([]byte("lua"), rdbgen.LCanon), rdbgen.RawStr([]byte(fmt.Sprintf("return %d", i)), rdbgen.LCanon)))
+			body := rdbgen.RawStr([]byte(fmt.Sprintf("return %d", i)), rdbgen.LCanon)
+			if i%2 == 0 {
+				// a script body stored compressed (a repetitive comment compresses to overlapping references)
+				body = rdbgen.LZFStr(bytes.Repeat([]byte("-- "), 12+i%5), "ref", 3, 9)
+			}
+			cur = append(cur, rdbgen.Aux(rdbgen.RawStr([]byte("lua"), rdbgen.LCanon), body))
 		}
 		if len(cur) >= 14 {
 			files = append(files, cur)
